@@ -2,6 +2,7 @@ package main
 
 import (
 	"go/ast"
+	"go/constant"
 	"go/token"
 	"go/types"
 	"strings"
@@ -227,6 +228,41 @@ func rulesC11(c *Ctx) {
 			}
 		})
 		c.Check(okPass, "serveStatefulPOST:onClose-wired", sp, nil, "the removing closure is the session's onClose")
+	})
+
+	c.Rule("R-C11-11", "a POST that finds its session closing is told so with 404 (the status that means 'this session id is dead' to the client): wherever servePOST abandons the hand-off because c.done is closed, and nothing has been written yet, the answer is http.StatusNotFound", func() {
+		sp := c.Fn(pM, "streamableServerConn", "servePOST")
+		g := sp.Graph()
+		doneF := c.Field(pM, "streamableServerConn", "done")
+		n := 0
+		ast.Inspect(sp.Body, func(x ast.Node) bool {
+			cc, ok := x.(*ast.CommClause)
+			if !ok || cc.Comm == nil {
+				return true
+			}
+			es, isE := cc.Comm.(*ast.ExprStmt)
+			if !isE {
+				return true
+			}
+			u, isU := ast.Unparen(es.X).(*ast.UnaryExpr)
+			if !isU || u.Op != token.ARROW || !sp.IsField(u.X, doneF) {
+				return true
+			}
+			// arms that answer (http.Error) must answer 404
+			for _, st := range cc.Body {
+				for _, call := range sp.AllCalls(st, false) {
+					if fn := sp.Callee(call); fn != nil && fn.Pkg() != nil && fn.Pkg().Path() == "net/http" && fn.Name() == "Error" && len(call.Args) == 3 {
+						n++
+						cv := sp.ConstVal(call.Args[2])
+						okS := cv != nil && cv.Kind() == constant.Int && cv.ExactString() == "404"
+						c.Check(okS, "servePOST:closing-session-is-404#"+itoa(n), sp, call, "the refusal on a closing session carries status 404 (got %s)", exprStr(call.Args[2]))
+					}
+				}
+			}
+			return true
+		})
+		_ = g
+		c.Pin("servePOST refusals on a closing session", n, 1)
 	})
 
 	c.Rule("R-C11-3", "a session id is minted only for a POST without one and announced only on the initialize response", func() {
